@@ -75,30 +75,75 @@ fn main() {
     std::process::exit(code);
 }
 
+/// Prints a line to stdout without panicking when stdout is gone.
+fn outln(line: &str) {
+    use std::io::Write;
+    let out = std::io::stdout();
+    let mut out = out.lock();
+    let _ = writeln!(out, "{}", line);
+    let _ = out.flush();
+}
+
+/// Signals that are evidence of the code under test bringing the process
+/// down (fault, abort, illegal instruction, arithmetic trap). Anything else -
+/// SIGKILL from an OOM killer, SIGTERM, SIGINT, SIGHUP ... - comes from the
+/// environment and is never a verdict.
+fn is_crash_signal(sig: i32) -> bool {
+    matches!(sig, 4 | 5 | 6 | 7 | 8 | 11 | 31)
+}
+
+fn signal_name(sig: i32) -> &'static str {
+    match sig { 4 => "SIGILL", 5 => "SIGTRAP", 6 => "SIGABRT", 7 => "SIGBUS", 8 => "SIGFPE", 11 => "SIGSEGV", 31 => "SIGSYS", 9 => "SIGKILL", 15 => "SIGTERM", 2 => "SIGINT", _ => "?" }
+}
+
+/// Runs a worker process and waits for it; if our own parent disappears in
+/// the meantime (a time limit killed `cargo run`, say) the worker is killed
+/// and `None` is returned.
+fn run_child(cmd: &mut std::process::Command) -> Option<std::process::ExitStatus> {
+    let parent = std::os::unix::process::parent_id();
+    let mut child = cmd.spawn().ok()?;
+    loop {
+        match child.try_wait() {
+            Ok(Some(st)) => return Some(st),
+            Ok(None) => {}
+            Err(_) => return None,
+        }
+        if std::os::unix::process::parent_id() != parent {
+            let _ = child.kill();
+            let _ = child.wait();
+            return None;
+        }
+        std::thread::sleep(std::time::Duration::from_millis(50));
+    }
+}
+
 /// `check` and `replay` run in a child process. The code under test can bring
 /// a process down in ways that cannot be caught inside it (stack overflow,
-/// abort on a failed allocation, a fatal signal); the supervising parent turns
-/// that into a verdict: for `check` it re-runs the runs that were in flight,
-/// one by one in fresh processes, and reports the one that dies again as a
-/// `crash` violation with a replay file; for `replay` a dying child IS the
-/// reproduction. Everything else (exit codes 0, 1, 2) is passed through.
+/// abort, a fatal fault); the supervising parent turns that into a verdict:
+/// for `check` it re-runs the runs that were in flight, one by one in fresh
+/// processes, and reports the one that dies again FROM THE SAME SIGNAL as a
+/// `crash` violation with a replay file; for `replay` a child dying from such
+/// a signal IS the reproduction. Exit codes 0 and 1 are passed through;
+/// everything else - also a child killed by the environment - is exit 2.
 fn supervise(args: &[String]) -> i32 {
     use std::os::unix::process::ExitStatusExt;
     let exe = match std::env::current_exe() {
         Ok(e) => e,
         Err(_) => return 2,
     };
-    let progress = std::env::temp_dir().join(format!("rpki-sim-progress-{}.bin", std::process::id()));
+    let nanos = std::time::SystemTime::now().duration_since(std::time::UNIX_EPOCH).map(|d| d.subsec_nanos()).unwrap_or(0);
+    let progress = std::env::temp_dir().join(format!("rpki-sim-progress-{}-{:08x}.bin", std::process::id(), nanos));
+    let _ = std::fs::remove_file(&progress);
     let _ = std::fs::write(&progress, vec![0u8; 8 * 80]);
-    let status = std::process::Command::new(&exe).args(args).env("VERIF_INNER", "1").env("VERIF_PROGRESS", &progress).status();
+    let status = run_child(std::process::Command::new(&exe).args(args).env("VERIF_INNER", "1").env("VERIF_PROGRESS", &progress));
     let in_flight: Vec<u64> = std::fs::read(&progress)
         .map(|b| b.chunks(8).filter_map(|c| c.try_into().ok().map(u64::from_le_bytes)).filter(|v| *v > 0).map(|v| v - 1).collect())
         .unwrap_or_default();
     let _ = std::fs::remove_file(&progress);
     let status = match status {
-        Ok(s) => s,
-        Err(e) => {
-            eprintln!("HARNESS ERROR: cannot start the worker process: {}", e);
+        Some(s) => s,
+        None => {
+            eprintln!("HARNESS ERROR: the worker process could not be run to its end");
             return 2;
         }
     };
@@ -106,10 +151,13 @@ fn supervise(args: &[String]) -> i32 {
         return if code == 0 || code == 1 { code } else { 2 };
     }
     let sig = status.signal().unwrap_or(0);
+    if !is_crash_signal(sig) {
+        eprintln!("HARNESS ERROR: the worker process was killed from outside (signal {} {}): not a verdict", sig, signal_name(sig));
+        return 2;
+    }
     let what = format!(
         "the process was brought down by signal {} ({}) while the code under test was running: a stack overflow, an abort or a fatal fault instead of an error value",
-        sig,
-        match sig { 6 => "SIGABRT", 11 => "SIGSEGV", 9 => "SIGKILL", 7 => "SIGBUS", 4 => "SIGILL", _ => "?" }
+        sig, signal_name(sig)
     );
     match args.first().map(|s| s.as_str()) {
         Some("replay") => {
@@ -119,8 +167,8 @@ fn supervise(args: &[String]) -> i32 {
                 .and_then(|t| serde_json::from_str::<serde_json::Value>(&t).ok())
                 .and_then(|d| d["property"].as_str().map(|s| s.to_string()))
                 .unwrap_or_default();
-            println!("  => crash:signal-{}: {}", sig, what);
-            println!("VIOLATION property={} replay={}", prop, path);
+            outln(&format!("  => crash:signal-{}: {}", sig, what));
+            outln(&format!("VIOLATION property={} replay={}", prop, path));
             1
         }
         _ => {
@@ -141,34 +189,39 @@ fn supervise(args: &[String]) -> i32 {
             eprintln!("worker process died with signal {}; re-running the {} runs that were in flight, one by one", sig, candidates.len());
             for idx in candidates {
                 let key = format!("signal-{}", sig);
-                let path = driver::write_seed_replay(s.as_ref(), seed, tier, idx, "crash", &key, &what);
+                // under a temporary name until the run is confirmed to die alone
+                let final_path = driver::seed_replay_path(s.as_ref(), seed, idx);
+                let tmp_path = final_path.with_file_name(format!(".tmp-{}-{}.json", std::process::id(), idx));
+                driver::write_seed_replay_to(&tmp_path, s.as_ref(), seed, tier, idx, "crash", &key, &what);
                 let out = std::process::Command::new(&exe)
                     .arg("replay")
-                    .arg(&path)
+                    .arg(&tmp_path)
                     .env("VERIF_INNER", "1")
                     .stderr(std::process::Stdio::null())
                     .output();
                 // the schedule up to the point of death goes into the replay file
                 if let Ok(o) = &out {
                     let lines: Vec<String> = String::from_utf8_lossy(&o.stdout).lines().filter(|l| l.starts_with("  #")).map(|l| l.trim_start().to_string()).collect();
-                    driver::attach_log(&path, &lines);
+                    driver::attach_log(&tmp_path, &lines);
                 }
                 let st = out.map(|o| o.status);
                 match st {
-                    Ok(st) if st.code().is_none() => {
-                        println!("violation in run {}: crash:{} -- {}", idx, key, what);
-                        println!("  => crash:{}: {}", key, what);
-                        println!("VIOLATION property={} replay={}", s.id(), path.display());
+                    Ok(st) if st.signal() == Some(sig) => {
+                        let _ = std::fs::rename(&tmp_path, &final_path);
+                        outln(&format!("violation in run {}: crash:{} -- {}", idx, key, what));
+                        outln(&format!("  => crash:{}: {}", key, what));
+                        outln(&format!("VIOLATION property={} replay={}", s.id(), final_path.display()));
                         return 1;
                     }
                     Ok(st) if st.code() == Some(1) => {
                         // the run violates the property in another way when run alone
-                        println!("violation in run {} (found while looking for the run that brought the process down)", idx);
-                        println!("VIOLATION property={} replay={}", s.id(), path.display());
+                        let _ = std::fs::rename(&tmp_path, &final_path);
+                        outln(&format!("violation in run {} (found while looking for the run that brought the process down)", idx));
+                        outln(&format!("VIOLATION property={} replay={}", s.id(), final_path.display()));
                         return 1;
                     }
                     _ => {
-                        let _ = std::fs::remove_file(&path);
+                        let _ = std::fs::remove_file(&tmp_path);
                     }
                 }
             }
@@ -218,7 +271,8 @@ fn real_main(args: &[String]) -> i32 {
             let jobs = flag(args, "--jobs")
                 .or_else(|| std::env::var("VERIF_JOBS").ok())
                 .and_then(|s| s.parse().ok())
-                .unwrap_or_else(|| std::thread::available_parallelism().map(|n| n.get()).unwrap_or(4).min(16));
+                .unwrap_or_else(|| std::thread::available_parallelism().map(|n| n.get()).unwrap_or(4).min(16))
+                .max(1);
             let runs_override = flag(args, "--runs").and_then(|s| s.parse().ok());
             let opts = driver::CheckOpts {
                 tier,
